@@ -473,6 +473,22 @@ def _affine_paths(f: Scope):
                 o = _It('map', args[0], args[1])
                 vals.append(o)
                 return o
+            if fn in ('builtins.map', 'builtins.filter', 'itertools.filterfalse', 'itertools.starmap', 'itertools.takewhile',
+                      'itertools.dropwhile') and len(args) >= 2:
+                for a_ in args[1:]:
+                    consume(a_, f'{fn}@{e.lineno}', problems)
+                o = _It('apply:' + fn, *args)
+                vals.append(o)
+                return o
+            if fn in ('itertools.repeat', 'itertools.count', 'itertools.cycle'):
+                o = _It('const:' + fn, *args)
+                return o
+            if fn in ('itertools.chain', 'itertools.islice', 'itertools.zip_longest', 'builtins.zip'):
+                for a_ in args:
+                    consume(a_, f'{fn}@{e.lineno}', problems)
+                o = _It('lazy:' + fn, *args)
+                vals.append(o)
+                return o
             if fn == 'itertools.compress' and len(args) == 2:
                 consume(args[0], f'compress.data@{e.lineno}', problems)
                 consume(args[1], f'compress.sel@{e.lineno}', problems)
@@ -558,9 +574,10 @@ def c18(ctx: Ctx) -> None:
                   construct=construct_key('split', 'eager', [v.kind for v in eager]))
         # R2 on the callable path
         callable_path = any(k.startswith('callable(') and v for k, v in facts.items())
-        applies = [v for v in vals if v.kind == 'map' and isinstance(v.args[0], _It) and v.args[0].kind == 'param' and v.args[0].args[0] == cond]
+        applies = [v for v in vals if (v.kind == 'map' or v.kind.startswith('apply:')) and isinstance(v.args[0], _It)
+                   and v.args[0].kind == 'param' and v.args[0].args[0] == cond]
         if callable_path:
-            ok = len(applies) == 1 and isinstance(applies[0].args[1], _It) and applies[0].args[1].kind == 'tee' \
+            ok = len(applies) == 1 and applies[0].kind == 'map' and isinstance(applies[0].args[1], _It) and applies[0].args[1].kind == 'tee' \
                 and isinstance(applies[0].args[1].args[0], _It) and applies[0].args[1].args[0].kind == 'param' and applies[0].args[1].args[0].args[0] == src
             ctx.check('C18-R2', f'{inst}: condition applied by {[repr(a) for a in applies]}', where, ok,
                       'exactly once per element, on a private copy of the source', 'the predicate is evaluated zero or several times per element (or on the shared source)',
@@ -865,6 +882,11 @@ def c20(ctx: Ctx) -> None:
         ctx.violation('C20-R3', f'{len(ys)} yields', where, construct=construct_key('gather_excs', 'yields', len(ys)))
     r = p.func(A, 'raise_first_exc')
     g2 = build(r, p)
+    for n in g2.nodes:
+        if n.kind == 'call' and (call_name(g2, n.ast) or '') in ('asyncio.gather', 'asyncio.wait', 'asyncio.as_completed', 'asyncio.wait_for'):
+            ctx.violation('C20-R1', f'raise_first_exc: {norm(n.ast)}', g2.loc(n),
+                          'the awaitables are awaited outside gather_excs: a failure propagates at once and the others are abandoned',
+                          construct=construct_key('raise_first_exc', n.ast))
     fl = [n for n in g2.nodes if n.kind == 'for_iter' and n.meta.get('is_async')]
     ok = False
     if len(fl) == 1:
@@ -878,6 +900,13 @@ def c20(ctx: Ctx) -> None:
         w = must_pass(g2, [], [fl[0], g2.exit], raises, start_edges=first, edge_ok=_nonexc)
         ok = ok and len(raises) >= 1 and all(norm(x.ast.exc) == tv for x in raises) and w is None
     rets = [n for n in g2.nodes if n.kind == 'return' and n.ast.value is not None and not (isinstance(n.ast.value, ast.Constant) and n.ast.value.value is None)]
+    # no other consumer of the awaitables: every path to the exit goes through the gather_excs loop, and
+    # the parameter is used nowhere else
+    if fl:
+        w = must_pass(g2, [g2.entry], [g2.exit], fl, edge_ok=_nonexc)
+        uses = [x for x in own_nodes(r.node) if isinstance(x, ast.Name) and x.id == r.params[0] and isinstance(x.ctx, ast.Load)]
+        other_awaits = [n for n in g2.nodes if n.kind == 'await']
+        ok = ok and w is None and len(uses) == 1 and not other_awaits
     ctx.check('C20-R4', f'raise_first_exc: async for {norm(fl[0].ast.target) if fl else None} in {norm(fl[0].ast.iter) if fl else None}: raise', f'{A}:{r.lineno}',
               ok and not rets, 'first exception in input order is raised, None otherwise', 'raise_first_exc does not raise the first yielded exception / drops the filter',
               construct=construct_key('raise_first_exc', 'shape'))
